@@ -10,4 +10,5 @@ for pkg, fp, curve, a24, bits, mask, limbc in [
     s = t
     for k, v in {"@PKG@": pkg, "@FP@": fp, "@CURVE@": curve, "@A24@": a24, "@BITS@": bits, "@MASK@": mask, "@LIMBC@": limbc}.items():
         s = s.replace(k, v)
+    s = "\n".join(l.rstrip() for l in s.split("\n"))
     open("/verif/harness/dh/%s/zz_verif_c06_test.go" % pkg, "w").write(s)
